@@ -151,7 +151,7 @@ def run(check):
                   "type, enabled, stop_if, deploy, wait_for, closure timeout, workflow output, foreach items and parallelism), type-adapted so that Prepare accepts "
                   "them; (B) misbehaving plugins (undeclared output id, ill-typed data, nil data, step-fatal and server-fatal errors, dropped connection) at every "
                   "step of 4 shapes and protocol faults at the run-time deployment; oracle: the child process must not die by panic / fatal error (and must not "
-                  "hang); (C) results that appear only because the run is being terminated and reach steps that are being closed; (D) explicit output schemas that do not fit the workflow (missing root object, dangling reference, other types); non-trivial = a fault was injected and the workflow was accepted; distinct = (fault class, position)") % (len(FAULTS), len(POSITIONS))
+                  "hang); (C) results that appear only because the run is being terminated and reach steps that are being closed; (D) explicit output schemas that do not fit the workflow (missing root object, dangling reference, other types); (E) whole stage inputs (loop items, parallelism, wait_for, closure timeout, stop_if, enabled) that are wait-optional and absent at run time; non-trivial = a fault was injected and the workflow was accepted; distinct = (fault class, position)") % (len(FAULTS), len(POSITIONS))
     check.assumptions = ["workflow inputs are schema-valid", "a rejected workflow is not a violation but is counted (coverage lost)"]
     gs = []
     for (fclass, ftype, fexpr, ov) in FAULTS:
@@ -196,6 +196,39 @@ def run(check):
         scripts["h"]["exec"] = {"outcome": "hang", "on_cancel": on_cancel}
         gs.append({"program": prog, "scripts": scripts, "input": gen.base_input(rng), "shape": "late-result/%s/%s/%s" % (ending, on_cancel, "+".join(sorted(kinds))), "outcome": {},
                    "fault": ("result-produced-by-termination", "%s %s" % (on_cancel, "+".join(sorted(kinds))))})
+    # (E) whole stage inputs that are absent at run time: a wait-optional value for a loop's items / parallelism or a step's
+    # wait_for / closure timeout whose source is disabled or fails, so nothing is there when the stage is due
+    for src_outcome in ("disabled", "error", "crash", "success"):
+        for pos in ("items", "parallelism", "wait_for", "closure_wait_timeout", "stop_if", "enabled"):
+            g_ = gen.plugin_step("g", Expr(In("tag")), extra_input={"l": ["x", "y"], "n": Expr(In("n")), "b": True, "a": [{"tag": "i0"}, {"tag": "i1"}]})
+            if src_outcome == "disabled":
+                g_.fields["enabled"] = Expr(Bin("==", In("tag"), Lit("never")))
+            steps = [g_]
+            outs = {"gone": {"m": Expr(Ref("g", "disabled", "output", "message"))}, "g_failed": {"why": Expr(Ref("g", "outputs", "error", "reason"))}, "g_crashed": {"why": Expr(Ref("g", "crashed", "error", "output"))}}
+            if pos in ("items", "parallelism"):
+                sub = gen.sub_program("sub.yaml", 1)
+                fe = Step("loop", "foreach", sub=sub, items=[{"tag": "i0"}, {"tag": "i1"}])
+                if pos == "items":
+                    # items computed from the workflow input and the source's result (list of {item, constant})
+                    sub = Program([gen.plugin_step("w0", Expr(In("item", "tag")), src="sub_w0")], {"success": {"t": gen.tagref("w0"), "c": Expr(In("constant"))}},
+                                  InputSchema({"item": {"type": ("object", "Item", {"tag": {"type": "string"}})}, "constant": {"type": "string"}}, root="Bound"), name="sub.yaml")
+                    fe = Step("loop", "foreach", sub=sub, items=Opt(Call("bindConstants", In("items"), Ref("g", "outputs", "success", "tag")), True))
+                else:
+                    fe.fields["parallelism"] = Opt(Ref("g", "outputs", "success", "n"), True)
+                steps.append(fe)
+                outs["success"] = {"d": Expr(Ref("loop", "outputs", "success", "data"))}
+                outs["failed"] = {"e": Expr(Ref("loop", "failed", "error"))}
+            else:
+                b = gen.plugin_step("b", Expr(In("tag")))
+                b.fields[pos] = Opt({"wait_for": Ref("g", "outputs", "success"), "closure_wait_timeout": Ref("g", "outputs", "success", "n"), "stop_if": Ref("g", "outputs", "success", "b"),
+                                     "enabled": Ref("g", "outputs", "success", "b")}[pos], True)
+                steps.append(b)
+                outs["success"] = {"b": gen.tagref("b")}
+                outs["b_closed"] = {"c": Expr(Ref("b", "closed", "result"))}
+            prog = Program(steps, outs, C07_INPUT)
+            scripts = gen.make_scripts(steps, {"g": src_outcome} if src_outcome in ("error", "crash") else {})
+            gs.append({"program": prog, "scripts": scripts, "input": {"tag": "T1", "items": [{"tag": "i0"}, {"tag": "i1"}]}, "shape": "absent-stage-input/%s/source-%s" % (pos, src_outcome), "outcome": {},
+                       "fault": ("absent-stage-input", "%s source %s" % (pos, src_outcome))})
     # (D) explicit output schemas that do not fit the workflow: refused at preparation or an error of the run, never a crash
     def obj(oid, props):
         return {"id": oid, "properties": {k: {"type": t} for k, t in props.items()}}
